@@ -43,6 +43,7 @@ def judge (fam payload impl : String) : Verdict :=
   | "sched.dump" => Sched.judgeDump payload impl
   | _ =>
     if fam.startsWith "cost." then Cost.judge payload impl
+    else if fam.startsWith "progress." then Amqp.Driver.judgeProgress (fam.drop 9).toString payload impl
     else if fam.startsWith "stages." then Stages.judgeStages (fam.drop 7).toString payload impl
     else if fam.startsWith "queries." then Stages.judgeQueries (fam.drop 8).toString payload impl
     else if fam.startsWith "sched.match." then Sched.judgeMatch (fam.drop 12).toString payload impl
